@@ -597,9 +597,11 @@ class Exec:
         tok['stack'] = fr.stack
         st.tokens.append(tok)
 
-    def leaf(self, fr, i, st, kind, args):
+    def leaf(self, fr, i, st, kind, args, name=''):
         if kind == 'pure':
-            fr.vals[i.id] = ('call', 'leaf-pure', fr.uid, i.id)
+            fr.vals[i.id] = ('call', 'leaf:' + name, fr.uid, i.id)
+            st.tokens.append({'k': 'call', 'name': 'leaf:' + name, 'scope': '', 'args': list(args), 'impure': False,
+                              'callee': None, 'where': i.where(), 'stack': fr.stack, 'result': fr.vals[i.id]})
             return
         if kind == 'skip':
             self.emit(fr, st, i, {'k': 'skip', 'len': args[1], 'dir': 'r'})
@@ -645,7 +647,7 @@ class Exec:
             kind = self.leafspec.virtual.get(name)
             if kind is None:
                 raise Unsupported('virtual call to %s in %s' % (name, fr.f.name))
-            self.leaf(fr, i, st, kind, args)
+            self.leaf(fr, i, st, kind, args, name)
             return
         if callee.startswith('llvm.'):
             if callee.startswith('llvm.memcpy') or callee.startswith('llvm.memmove'):
@@ -658,7 +660,7 @@ class Exec:
         if f is not None:
             kind = self.leafspec.direct(f)
             if kind is not None:
-                self.leaf(fr, i, st, kind, args)
+                self.leaf(fr, i, st, kind, args, f.srcname)
                 return
         if callee in self.nt_funcs and callee != self.start:
             obj = args[-1] if not (f.params and f.params[0].get('sret')) else args[0]
@@ -916,6 +918,8 @@ def fmt_term(t):
         return '%s(%s)' % (t[1].split('<')[0], ','.join(fmt_term(x) for x in t[2:]))
     if k == 'alloca':
         return 'local'
+    if k == 'padd':
+        return '(%s + %s)' % (fmt_term(t[1]), fmt_term(t[2]))
     if k == 'select':
         return '(%s?%s:%s)' % (fmt_term(t[1]), fmt_term(t[2]), fmt_term(t[3]))
     if k == 'icmp':
@@ -930,7 +934,7 @@ def fmt_lin(l):
         parts.append(('%d*' % c if c != 1 else '') + fmt_term(a))
     if l[0] or not parts:
         parts.append(str(l[0]))
-    return '+'.join(parts)
+    return '+'.join(parts).replace('+-', '-')
 
 
 class Grammar:
